@@ -451,6 +451,17 @@ class ExprMixin:
             return VOpt(NOT(c), a)
         if isinstance(a, VConc) and isinstance(b, VConc) and isinstance(a.obj, enum.Enum):
             return VEnumIte(self, c, a, b)
+        if isinstance(b, VOpt) and not isinstance(a, VOpt):
+            # one side already Optional: the other side (a plain value or None) as an Optional of the same payload shape
+            a = VOpt(True, b.val) if a is None else VOpt(False, a)
+        elif isinstance(a, VOpt) and not isinstance(b, VOpt):
+            b = VOpt(True, a.val) if b is None else VOpt(False, b)
+        if isinstance(a, (VConc, VChoice)) and isinstance(b, (VConc, VChoice)):
+            # two opaque concrete objects of the real module (e.g. the inner dicts of a constant table of tables looked up
+            # with a symbolic key): kept as a guarded choice; a method call on it is made on each alternative (call_method)
+            if isinstance(a, VConc) and isinstance(b, VConc) and a.obj is b.obj:
+                return a
+            return VChoice(to_z3(c), a, b)
         return ite_tree(c, a, b)
 
     def ev_BoolOp(self, node, st):
@@ -1283,6 +1294,13 @@ class VVec:
 
     def __repr__(self):
         return f"VVec({self.c})"
+
+
+class VChoice:
+    """`a` if `c` else `b`, for opaque concrete objects a, b (VConc or nested VChoice) that have no symbolic representation"""
+
+    def __init__(self, c, a, b):
+        self.c, self.a, self.b = c, a, b
 
 
 class VEnumSym:
